@@ -43,6 +43,12 @@ CLAIMED = {
         text="Tens of thousands of value trees built from format-significant strings, numeric extremes, non-finite floats, quoting-hostile keys and nested empties are converted by the real converters (directly, through convert expressions and through `out` with the real CLI) and read back by decoders that share no code with serde; nesting, order, key sets, strings and exact numeric values must agree, and values the format cannot carry must be errors.",
         note="Trusted: the independent decoders; my YAML 1.2 core-schema resolver (scalars on which 1.1 and 1.2 differ are counted). TOML arrays mixing types or nesting tables: error or exact round trip both accepted.",
         design="DESIGN.md section 4, C03"),
+    "C08": dict(
+        engine="probe",
+        technique="runtime monitor: the converters' output is executed by real shells (dash and bash) and the words/variables they see are compared with the input; exhaustive small string space, canary side-effect detection, all field-kind sequences",
+        text="Every string over a 9-symbol shell-hostile alphabet up to length 4 (thorough: 6), injection canaries and random Unicode are placed in all six positions of the env, flags and exec converters; dash and bash source / eval the real output in a directory full of bait files and report argv and variables NUL-separated; any altered, split, merged or missing word, any created file, is a violation. All sequences of scalar/NULL/list/tuple fields up to 4 (thorough: 5) check that a skipped field never swallows the next.",
+        note="Trusted: dash and bash as the POSIX shells; `exec` shadowed by a bash function to observe the exec script. Variable names restricted to shell identifiers.",
+        design="DESIGN.md section 4, C08"),
     "C12": dict(
         engine="probe",
         technique="runtime monitor: round-trip oracle through expat (xml.etree, namespace-aware) against the tree computed from the document tuple by the documented DSL rules; must-fail table for malformed documents",
